@@ -39,21 +39,26 @@ MANIFEST = dict(
          "on generated files (every *.dpot.imc compared row by row, grid and value, 1e-7) and "
          "linalg_constrained_qrsolve(A, b, C) (1e-9), the latter a second time with the constraint rows scaled by 2^k, "
          "k in {0, +-20, +-40, +-70} supplied by TLC (same rational expected, C x = 0 evaluated against the unscaled C). "
-         "csg_fmatch: TLC generates lattice trajectories (5-6 beads, "
-         "1-3 blocks of 1-3 frames plus an incomplete trailing block, constrained and plain least squares, spline grid "
-         "of 4-5 knots, integer knot values, optional integer noise on the forces) and guards in exact integer "
+         "csg_fmatch: TLC generates lattice trajectories (5-8 beads; one pair "
+         "interaction, two pair interactions of two bead types side by side, or a bond in two-bead molecules next to a "
+         "pair interaction; 1-3 blocks of 1-3 frames plus an incomplete trailing block, constrained and plain least "
+         "squares, spline grid of 4-5 knots on a dyadic or a decimal (0.1 nm) grid, out_step = step or step/2, integer "
+         "knot values, optional integer noise on the forces, nbsearch grid/simple) and guards in exact integer "
          "arithmetic that every block's least-squares problem has full rank (no force cancellation, >= 2 distinct "
          "distances per spline interval); the reference forces are generated with the real tools::CubicSpline from "
          "the knot values; the relations 'K * table(blocked run) = sum of the tables of single-block runs on each "
-         "block's frames (--first-frame/--nframes)' and, without noise, 'written force table = generating spline at "
-         "the knots' (1e-6) are evaluated on the files the real csg_fmatch writes.",
+         "block's frames (--first-frame/--nframes)', 'table(run with --trj-force known and forces F+known) = table(run "
+         "with forces F)' and, without noise, 'written force table = generating spline on the output grid' (1e-6) are "
+         "evaluated on every .force file the real csg_fmatch writes. The constrained family includes p = 0 (plain "
+         "least squares through the same routine).",
     note="PARTIAL CLAIM: the two linear-algebra clauses of C06 (csg_imc_solve incl. index-file splitting; the "
          "constrained least-squares routine) and, for csg_fmatch, block independence and reproduction of a representable "
-         "force function for ONE NON-BONDED PAIR INTERACTION without mapping, in the relational reading (both sides of "
+         "force function for pair interactions (one, or two of different bead types at once) and a BOND next to a pair "
+         "interaction, without mapping, incl. --trj-force, out_step < step and decimal grids, in the relational reading (both sides of "
          "every comparison are outputs of the real code; the spec supplies instances, well-posedness and the relation). "
-         "NOT covered: csg_fmatch with bonded interactions (bond/angle/dihedral gradients: see C07 for the gradients "
-         "themselves), several interactions at once, three-body interactions, periodic splines, --trj-force, mapping "
-         "(C01), out_step != step, an absolute numeric oracle for noisy data (no exact integer model of that "
+         "NOT covered: csg_fmatch with angle/dihedral interactions (the generator would need their gradients: see C07), "
+         "three-body interactions, periodic splines, mapping (C01), --trj-force together with --first-frame, an "
+         "absolute numeric oracle for noisy data (no exact integer model of that "
          "least-squares problem of useful size exists, and a harness that only reports 'close enough' to TLC would be a "
          "change of technique). "
          "tools::linalg_qrsolve no longer exists in this code base (only named in csg_resample error texts). "
